@@ -17,6 +17,7 @@ return value of a create).  All statements are for NON-wrapping generations
 length, forged handles, arbitrary closures, continuing after panics), hypotheses as in
 Props/C01.lean.
 -/
+import Gecs.Lemmas.CheckSound
 import Gecs.Lemmas.WorldHistory
 import Gecs.Lemmas.GenTie
 
@@ -27,6 +28,7 @@ import Gecs.Lemmas.GenTie
 -- OBLIGATIONS: Gecs.C08_overflow_panics_instead_of_reissuing
 -- OBLIGATIONS: Gecs.C08_wrapping_is_the_documented_exception
 -- OBLIGATIONS: Gecs.gen_version_max Gecs.gen_version_start Gecs.gen_id_range
+-- OBLIGATIONS: Gecs.invCheck_iff
 
 namespace Gecs
 variable {α : Type}
